@@ -19,7 +19,8 @@ RULE = ("a valid generated module (all kinds, comment-rich layout) and a fault p
         "and, for a sample here, against `cmake -P` parse errors): only mutants that are invalid outside comments demand "
         "a failure; absorbed faults are counted as trivial. Oracle: cminx.main(['-o', out, file]) must raise or exit "
         "non-zero and write no .rst for the file (directory-mode sample: siblings may be written, the faulty page not); "
-        "independently, a run that succeeds while ANTLR reports 'token recognition error' is a violation. Non-trivial: an "
+        "runs also under all / some include_undocumented_* flags off and with the faulty file first or in the middle of "
+        "several command-line inputs or in a subdirectory (-r); independently, a run that succeeds while ANTLR reports 'token recognition error' is a violation. Non-trivial: an "
         "effective fault; distinct by (kind, context class, module hash)")
 ASSUMPTIONS = ["the reference lexer decides which mutants are invalid; disputed mutants (cmake -P reports no parse error for a "
                "parse-level fault) are dropped and counted, more than 0.5% is a harness error",
@@ -39,7 +40,8 @@ def strategy(tier):
     return st.fixed_dictionaries({
         "module": G.module(p), "layout": G.layout_choices(24),
         "faults": st.lists(plan, min_size=1, max_size=2),
-        "mode": st.sampled_from(["file", "file", "file", "dir"]),
+        "mode": st.sampled_from(["file", "file", "file", "dir", "multi-first", "multi-middle", "subdir"]),
+        "flags": st.sampled_from(["default", "default", "all-off", "some-off"]),
         "exhaustive": st.just(tier == "thorough"),
     })
 
@@ -104,10 +106,14 @@ def cmake_parse_error(text):
     with open(path, "wb") as f:
         f.write(("return()\n" + text).encode("utf-8"))
     p = subprocess.run([CMAKE, "-P", path], cwd=d, capture_output=True, text=True)
-    return p.returncode != 0 and ("Parse error" in p.stderr or "Syntax error" in p.stderr or "Flow control" in p.stderr)
+    return p.returncode != 0 and ("Parse error" in p.stderr or "Syntax error" in p.stderr)
 
 
-def run_one(text, mode, res, kind, ctx):
+FLAG_NAMES = ["function", "macro", "cpp_class", "cpp_attr", "cpp_constructor", "cpp_member", "ct_add_test", "add_test",
+              "ct_add_section", "option"]
+
+
+def run_one(text, mode, res, kind, ctx, flags="default"):
     with S.Sandbox("c06") as sb:
         inp = sb.path("in")
         os.makedirs(inp)
@@ -115,26 +121,45 @@ def run_one(text, mode, res, kind, ctx):
         with open(bad, "wb") as f:
             f.write(text.encode("utf-8"))
         out = sb.path("out")
+        good = []
+        for nm in ("a_good.cmake", "z_good.cmake"):
+            p_ = os.path.join(inp if mode == "dir" else sb.path("else"), nm)
+            with open(p_, "w") as f:
+                f.write(f"function(ok_{nm[0]})\nendfunction()\n")
+            good.append(p_)
         if mode == "dir":
-            with open(os.path.join(inp, "a_good.cmake"), "w") as f:
-                f.write("function(ok_before)\nendfunction()\n")
-            with open(os.path.join(inp, "z_good.cmake"), "w") as f:
-                f.write("function(ok_after)\nendfunction()\n")
             argv = [inp, "-o", out]
+        elif mode == "subdir":
+            # the faulty file sits in a subdirectory reached only in recursive mode
+            os.makedirs(os.path.join(inp, "deeper"))
+            os.rename(bad, os.path.join(inp, "deeper", "faulty.cmake"))
+            with open(os.path.join(inp, "top.cmake"), "w") as f:
+                f.write("function(ok_top)\nendfunction()\n")
+            argv = [inp, "-r", "-o", out]
+        elif mode == "multi-first":
+            argv = [bad, good[0], good[1], "-o", out]
+        elif mode == "multi-middle":
+            argv = [good[0], bad, good[1], "-o", out]
         else:
             argv = [bad, "-o", out]
+        if flags != "default":
+            off = FLAG_NAMES if flags == "all-off" else FLAG_NAMES[::2]
+            cfg = sb.path("flags.yaml")
+            with open(cfg, "w") as f:
+                f.write("input:\n" + "".join(f"  include_undocumented_{k}: false\n" for k in off))
+            argv += ["-s", cfg]
         r = S.run_main(argv, cwd=sb.path("cwd"))
-        page = os.path.join(out, "faulty.rst")
+        page = os.path.join(out, "deeper", "faulty.rst") if mode == "subdir" else os.path.join(out, "faulty.rst")
         failed = r.exc is not None or r.code != 0
         skipped = "token recognition error" in r.stderr
         return failed, os.path.exists(page), skipped, r
 
 
-def check_mutant(src, mutated, kind, ctx, mode, res, cross):
+def check_mutant(src, mutated, kind, ctx, mode, res, cross, flags="default"):
     lx = L.lex(mutated)
     if lx.error is None:
         res.labels.append("absorbed:" + kind)
-        failed, page, skipped, r = run_one(mutated, mode, res, kind, ctx)
+        failed, page, skipped, r = run_one(mutated, mode, res, kind, ctx, flags)
         if skipped and not failed:
             res.fail("silent-skip:" + kind, "run succeeded although the lexer skipped source characters: " + r.stderr.strip()[:160])
         return False
@@ -144,7 +169,13 @@ def check_mutant(src, mutated, kind, ctx, mode, res, cross):
             res.fail("HARNESS:disputed-mutant:" + kind, f"reference lexer: {lx.error}; cmake -P reports no parse error")
             return False
     res.labels.append(f"effective:{kind}:{ctx}")
-    failed, page, skipped, r = run_one(mutated, mode, res, kind, ctx)
+    failed, page, skipped, r = run_one(mutated, mode, res, kind, ctx, flags)
+    if not failed and kind.split("+")[-1] not in ("bad-escape", "backslash-eof") and \
+            lx.error.kind not in ("invalid-escape", "backslash-at-eof") and not cmake_parse_error(mutated):
+        # CMinx accepted the file and so does CMake's parser: the reference lexer was too strict, not a violation
+        res.labels.append("disputed:" + kind)
+        res.fail("HARNESS:disputed-mutant:" + kind, f"reference lexer: {lx.error}; cmake -P reports no parse error; CMinx accepted")
+        return False
     if not failed:
         sub = "lexical" if lx.error.kind in ("unterminated-string", "invalid-escape", "backslash-at-eof",
                                              "unterminated-bracket-comment", "unterminated-bracket-argument") else "syntactic"
@@ -228,7 +259,9 @@ def evaluate(case):
         res.labels.append("discarded:no-applicable-fault")
         return res
     kind, ctx = applied[-1]
-    eff = check_mutant(src, mutated, "+".join(k for k, _ in applied) if len(applied) > 1 else kind, ctx, case["mode"], res, cross)
+    eff = check_mutant(src, mutated, "+".join(k for k, _ in applied) if len(applied) > 1 else kind, ctx, case["mode"], res, cross,
+                       case.get("flags", "default"))
+    res.labels.append("flags:" + case.get("flags", "default"))
     res.nontrivial = bool(eff)
     res.labels.append("mode:" + case["mode"])
     if len(applied) > 1:
